@@ -189,8 +189,9 @@ pub fn oracle(s: &ProgScene<X>, t: &Trace) -> Vec<Violation> {
                 detail: format!("client {} op {} {op:?} did not resolve although the actor terminated", o.c, o.i),
             }),
             (Some(end), _) => {
-                // a halt/consume whose stop was rejected (actor already gone) returns early with an error
-                let rejected = matches!(op, Op::Halt(_) | Op::Consume(_)) && !o.ok();
+                // a halt whose stop was rejected (actor already gone) returns early with an error;
+                // consume() joins all the same - it is the only way to the actor's final state
+                let rejected = matches!(op, Op::Halt(_)) && !o.ok();
                 if !failing && !rejected {
                     crate::check::oblige("announce-after-stopped");
                     match stopped_exit {
